@@ -11,14 +11,22 @@
    - C09_reconcile_history: along any history of insert / update / delete on both stores in which
      each change is followed by the handling of its event, the table is at every quiet point exactly
      what the stores prescribe (namespaces of specs and of values being fixed for life).
-   PARTIAL: the schedule in which several changes pile up before their events are handled, and the
-   interleaving of the two handler goroutines, are not proved; they are exercised on the
-   implementation (bursts of changes, then the quiescent table is compared with the model's, which
-   handles the backlog in one particular order).  A symbol whose Bind failed is compared by id,
-   namespace, kind, body and has-node only (its partially bound environment depends on Go's map
+   - C09_reconcile_backlog: along ANY history in which changes to the two stores, explicit Loads and
+     the handling of pending events interleave arbitrarily - several changes may pile up before an
+     event is handled, and the two handlers (spec events, value events) take turns in any order, each
+     taking the oldest event of its own stream - the table is, whenever both streams have run dry,
+     exactly what the stores prescribe (C09_backlog_invariant is the invariant that carries this:
+     every id is waiting in the spec stream, or is bound against a snapshot of the value store that
+     differs from the present one only under ids still waiting in the value stream).  Conditions: an
+     id keeps its namespace for life, value ids are non-zero, and in the quiet state no two values of
+     the runtime's namespace share a name (the deployment's unique index on namespace+name).
+   Not in the model: each Load is one atomic step (the repaired Runtime serialises Loads), so the
+   two handler goroutines interleave at the granularity of whole events; the stream plumbing
+   (C13) and the table (C06-C08) are proved separately.  A symbol whose Bind failed is compared by
+   id, namespace, kind, body and has-node only (its partially bound environment depends on Go's map
    order). *)
-From Coq Require Import List NArith Bool.
-From Uf Require Import Runtime.Load Runtime.LoadProofs Runtime.ReconcileProofs.
+From Coq Require Import List NArith Bool Lia.
+From Uf Require Import Runtime.Load Runtime.LoadProofs Runtime.ReconcileProofs Runtime.Backlog.
 Import ListNotations.
 
 Theorem C09_load_exact : forall cfg specs vals tab,
@@ -47,6 +55,37 @@ Theorem C09_reconcile_history : forall cfg ops st,
   good cfg st -> history_ok cfg st ops -> good cfg (fold_left (settled_after cfg) ops st).
 Proof. exact reconcile_history. Qed.
 Print Assumptions C09_reconcile_history.
+
+Theorem C09_backlog_invariant : forall cfg ops st,
+  Binv cfg st -> hist_ok cfg st ops -> Binv cfg (r_after cfg st ops).
+Proof. exact backlog_history. Qed.
+Print Assumptions C09_backlog_invariant.
+
+Theorem C09_reconcile_backlog : forall cfg ops,
+  hist_ok cfg r_init ops ->
+  let st := r_after cfg r_init ops in
+  r_sq st = [] -> r_vq st = [] -> names_unique cfg (r_vals st) ->
+  forall id, t_lookup id (r_tab st) = expected cfg (r_specs st) (r_vals st) id.
+Proof. exact reconcile_backlog. Qed.
+Print Assumptions C09_reconcile_backlog.
+
+(* non-vacuity: a history with a backlog (three value changes and a spec change pending at once,
+   handlers taking turns) meets the hypotheses, ends quiet, and its values have distinct names *)
+Definition c09_burst : list rop :=
+  [OValPut (mkval 1 1 2 10); OSpecPut (mkspec 1 1 1 1 [mkeref 1 0 2] 0); OValPut (mkval 1 1 3 11);
+   OValPut (mkval 2 1 2 12); OProcVal; OSpecPut (mkspec 2 1 1 1 [mkeref 1 2 0] 0); OProcSpec; OProcVal;
+   OValDel 1; OProcSpec; ODrain].
+Example C09_ex_backlog :
+  let cfg := mkcfg 1 None in
+  let st := r_after cfg r_init c09_burst in
+  hist_ok cfg r_init c09_burst /\ r_sq st = [] /\ r_vq st = [] /\ names_unique cfg (r_vals st)
+  /\ map y_id (r_tab st) = [1; 2] /\ map y_ok (r_tab st) = [true; true].
+Proof.
+  split; [|split; [|split; [|split; [|split]]]]; try (vm_compute; reflexivity).
+  - cbn. repeat split; auto; intros q H; try tauto;
+      repeat (destruct H as [<-|H]; [cbn; auto; try lia|]); try tauto.
+  - intros a b Ha Hb. vm_compute in Ha, Hb. destruct Ha as [<-|[]], Hb as [<-|[]]. reflexivity.
+Qed.
 
 (* non-vacuity: the empty runtime is a good state, and a concrete history meets history_ok
    (ReconcileProofs.history_ok_example); a concrete run: a spec bound by name is rebound when the
